@@ -49,18 +49,20 @@ type Thing struct {
 	Any     interface{}
 }
 
-func (t Thing) ValueMethod() string              { return "vm:" + t.Name }
-func (t *Thing) PtrMethod() string               { return "pm:" + t.Name }
-func (t Thing) Add(a, b int) int                 { return a + b }
-func (t Thing) Concat(a string, b string) string { return a + b }
-func (t Thing) Variadic(xs ...int) int           { return len(xs) }
-func (t Thing) Two() (int, error)                { return 1, nil }
-func (t Thing) Nothing()                         {}
-func (t Thing) TakesPtr(p *Thing) string         { return "tp" }
-func (t Thing) TakesIface(v interface{}) string  { return fmt.Sprint(v) }
-func (t Thing) TakesFloat(f float64) float64     { return f * 2 }
-func (t Thing) TakesSlice(s []int) int           { return len(s) }
-func (t Thing) hiddenMethod() string             { return "h" }
+func (t Thing) ValueMethod() string                             { return "vm:" + t.Name }
+func (t *Thing) PtrMethod() string                              { return "pm:" + t.Name }
+func (t Thing) Add(a, b int) int                                { return a + b }
+func (t Thing) Concat(a string, b string) string                { return a + b }
+func (t Thing) Variadic(xs ...int) int                          { return len(xs) }
+func (t Thing) Join(sep string, parts ...string) string         { return fmt.Sprint(len(parts)) + sep }
+func (t Thing) Fmt(f string, n int, rest ...interface{}) string { return f }
+func (t Thing) Two() (int, error)                               { return 1, nil }
+func (t Thing) Nothing()                                        {}
+func (t Thing) TakesPtr(p *Thing) string                        { return "tp" }
+func (t Thing) TakesIface(v interface{}) string                 { return fmt.Sprint(v) }
+func (t Thing) TakesFloat(f float64) float64                    { return f * 2 }
+func (t Thing) TakesSlice(s []int) int                          { return len(s) }
+func (t Thing) hiddenMethod() string                            { return "h" }
 
 // NewThing builds a populated Thing.
 func NewThing() Thing {
